@@ -116,11 +116,16 @@ def coq_dtab(d):
     return '{| d00 := %d; d01 := %d; d10 := %d; d11 := %d |}' % (int(d[0, 0]), int(d[0, 1]), int(d[1, 0]), int(d[1, 1]))
 
 
-def coq_case(c, caps, reuse, strip, delays, w, lane, s0, s1, s2, extra, tcap):
+def coq_case(c, caps, reuse, strip, delays, w, lane, s0, s1, s2, extra, tcap, a_ctrl=None):
     n = len(c.lines) + 3
     capl = [caps] * n if isinstance(caps, int) else list(caps)
     ops = np.asarray(w.ops)
-    actrl = cg.coq_list(ops[:, 6:9].tolist(), lambda r: f'({cg.coq_Z(r[0])}, {cg.coq_Z(r[1])}, {cg.coq_Z(r[2])})')
+    if a_ctrl is None:
+        rows = ops[:, 6:9].tolist()
+    else:
+        # generator-owned table (one row per LINE): the op writing line l accumulates with row l; scratch outputs never accumulate
+        rows = [[int(v) for v in a_ctrl[o[1]]] if o[1] < len(a_ctrl) else [-1, 0, 0] for o in ops]
+    actrl = cg.coq_list(rows, lambda r: f'({cg.coq_Z(r[0])}, {cg.coq_Z(r[1])}, {cg.coq_Z(r[2])})')
     svals = cg.coq_list(range(len(s0)), lambda p: f'({b(s0[p, lane] != 0)}, {coq_time(tval(s1[p, lane]))}, {b(s2[p, lane] != 0)})')
     ex = cg.coq_list([(p, wf) for (p, l), wf in sorted(extra.items()) if l == lane],
                      lambda e: f'({e[0]}, {cg.coq_list(e[1], coq_time)})')
